@@ -1,0 +1,84 @@
+//go:build verif
+
+package pubsub
+
+// Accessors used only by the verification harness (/verif). This
+// file is compiled only with the "verif" build tag; it adds no
+// behavior to the package and modifies nothing.
+
+// VerifQueueSnapshot is a copy of the internal state of a Queue,
+// taken while holding the queue's lock.
+type VerifQueueSnapshot struct {
+	Tracker    string // "nolimit", "hardlimit", "quota"
+	Length     int
+	Cap        int // tracker.cap()
+	SoftQuota  int
+	HardLimit  int
+	Credit     float64
+	Closed     bool
+	Items      int  // number of entries reachable from the sentinel
+	BackIsLast bool // q.back is the last reachable entry (the sentinel when empty)
+	Cyclic     bool // the walk from the sentinel did not terminate
+}
+
+// VerifSnapshot returns a copy of the queue's tracker fields, the
+// closed flag and the shape of the linked list.
+func (q *Queue[T]) VerifSnapshot() VerifQueueSnapshot {
+	q.mu.Lock()
+	defer q.mu.Unlock()
+
+	out := VerifQueueSnapshot{
+		Length: q.tracker.len(),
+		Cap:    q.tracker.cap(),
+		Closed: q.closed,
+	}
+	switch t := q.tracker.(type) {
+	case *queueNoLimitTrackerImpl:
+		out.Tracker = "nolimit"
+	case *queueHardLimitTracker:
+		out.Tracker = "hardlimit"
+		out.HardLimit = t.capacity
+	case *queueLimitTrackerImpl:
+		out.Tracker = "quota"
+		out.SoftQuota = t.softQuota
+		out.HardLimit = t.hardLimit
+		out.Credit = t.credit
+	}
+
+	last := q.front
+	limit := out.Length + 1<<20
+	for e := q.front.link; e != nil; e = e.link {
+		out.Items++
+		last = e
+		if out.Items > limit {
+			out.Cyclic = true
+			break
+		}
+	}
+	out.BackIsLast = last == q.back
+	return out
+}
+
+// VerifItems returns the queued items, oldest first, by walking the
+// links from the sentinel.
+func (q *Queue[T]) VerifItems() []T {
+	q.mu.Lock()
+	defer q.mu.Unlock()
+
+	var out []T
+	limit := q.tracker.len() + 1<<20
+	for e := q.front.link; e != nil; e = e.link {
+		out = append(out, e.item)
+		if len(out) > limit {
+			break
+		}
+	}
+	return out
+}
+
+// NewVerifHardLimitQueue constructs a Queue over the fixed-capacity
+// tracker (queueHardLimitTracker), which the public constructors
+// only use for the Deque.
+func NewVerifHardLimitQueue[T any](capacity int) *Queue[T] {
+	return makeQueue[T](&queueHardLimitTracker{capacity: capacity})
+}
